@@ -18,7 +18,7 @@ LT = {"fixed": FixedLifetime, "normal": NormalLifetime, "folded": FoldedNormalLi
       "weibull": WeibullLifetime}
 CLS = {"simple": SimpleFlowDrivenStock, "inflow": InflowDrivenDSM, "stockdriven": StockDrivenDSM}
 NAMING = {"arrow": process_names_with_arrow, "no_spaces": process_names_no_spaces, "ids": process_ids}
-DIMNAMES = {"t": "Time", "a": "Alpha", "b": "Beta Region", "c": "Gamma", "e": "Element"}
+DIMNAMES = {"t": "Technology", "a": "Alpha", "b": "Beta Region", "c": "Gamma", "e": "Element"}
 PROC_POOL = ["use", "use phase", "waste mgmt.", "re-use (2)", "Fab/rication", "shredder & sorter", "Recycling -> out", "end of life", "market"]
 STOCK_NAMES = ["in use", "landfill (old)", "obsolete-stock", "hibernating"]
 PARAM_NAMES = ["yield", "split share", "lifetime mean", "demand"]
@@ -37,19 +37,19 @@ def gen_sysworld(rng, small=False):
                                                                 else [1990, 1995, 2000, 2010, 2030][:nt])
     tl = rng.choice(["t", "t", "y"])  # the time dimension is not always lettered 't' (the default of StockDefinition.time_letter)
     dims = [{"letter": tl, "name": "Time" if tl == "t" else "Year", "items": t, "dtype": "int"}]
-    for letter in rng.sample("abce", rng.randint(1, 2 if small else 3)):
+    for letter in rng.sample("abcet" if tl == "y" else "abce", rng.randint(1, 2 if small else 3)):
         n = rng.randint(1, 3)
         kind = rng.weighted([("str", 4), ("int", 4), ("float", 1)])
-        items = [f"{letter}{j}x" for j in range(n)] if kind == "str" else [100 * (ord(letter) - 96) + j for j in range(n)]
+        items = [f"{letter}{j}x" for j in range(n)] if kind == "str" else [{"a": 100, "b": 200, "c": 300, "e": 500, "t": 700}[letter] + j for j in range(n)]
         if kind == "float":
             # e.g. a 'share' or 'size class' dimension; whole numbers are written without a decimal point in the files
-            offset = {"a": 0.0, "b": 16.0, "c": 32.0, "e": 48.0}[letter]  # pairwise disjoint item sets across dimensions
+            offset = {"a": 0.0, "b": 16.0, "c": 32.0, "e": 48.0, "t": 64.0}[letter]  # pairwise disjoint item sets across dimensions
             items = [x + offset for x in [[0.5, 1.0, 2.0], [0.25, 3.0, 7.5], [10.0, 0.125, 4.0]][(ord(letter) + n) % 3][:n]]
         if kind == "str":
             flavour = rng.weighted([("plain", 5), ("numeric_looking", 3), ("awkward", 1)])
             if flavour == "numeric_looking":
                 # a str-typed dimension whose file holds number-like cells next to text
-                items = items[:1] + [str(1000 * (ord(letter) - 96) + 50 * j) for j in range(1, n)]
+                items = items[:1] + [str({"a": 1000, "b": 2000, "c": 3000, "e": 5000, "t": 7000}[letter] + 50 * j) for j in range(1, n)]
                 if rng.chance(0.3):
                     items = items[::-1]
             elif flavour == "awkward":
